@@ -95,7 +95,7 @@ func ruleC12(r *Report) {
 	checkC12IDs(r, p)
 	checkC12Fields(r, p)
 	checkEscape(r, p, "C12.escape", func(fn *ssa.Function) bool {
-		return fn.Signature.Recv() != nil && (isMethodOf(fn, "AuthnRequest") || isMethodOf(fn, "LogoutRequest") || isMethodOf(fn, "LogoutResponse")) || fn.Name() == "elementToBytes"
+		return fn.Signature.Recv() != nil && (isMethodOf(fn, "AuthnRequest") || isMethodOf(fn, "LogoutRequest") || isMethodOf(fn, "LogoutResponse")) || isElementSerialiser(p, fn)
 	})
 	checkFormBuffers(r, p)
 }
@@ -471,7 +471,7 @@ func checkC12Fields(r *Report, p *Prog) {
 			ok := false
 			if al, isA := st.Val.(*ssa.Alloc); isA {
 				if iv := initStore(al); iv != nil {
-					if c, isC := iv.(*ssa.Call); isC && c.Call.StaticCallee() != nil && c.Call.StaticCallee().Name() == "nameIDFormat" {
+					if c, isC := iv.(*ssa.Call); isC && c.Call.StaticCallee() != nil && readsField(c.Call.StaticCallee(), "ServiceProvider", "AuthnNameIDFormat") && isStringType(c.Type()) {
 						ok = true
 					}
 				}
@@ -491,6 +491,46 @@ func checkC12Fields(r *Report, p *Prog) {
 		{"Issuer", "Value", issuer, "entity ID, or metadata URL when unset"},
 		{"LogoutResponse", "IssueInstant", "TimeNow()", "the library clock"},
 	})
+}
+
+// isElementSerialiser: role of elementToBytes - a library function (not a method) that takes an *etree.Element and returns
+// ([]byte, error) produced by serialising a document.
+func isElementSerialiser(p *Prog, fn *ssa.Function) bool {
+	if fn.Signature.Recv() != nil || fn.Signature.Results().Len() != 2 || fn.Signature.Results().At(0).Type().String() != "[]byte" || errIndex(fn) != 1 {
+		return false
+	}
+	hasEl := false
+	for _, prm := range fn.Params {
+		if typeIs(prm.Type(), etreePath, "Element") {
+			hasEl = true
+		}
+	}
+	if !hasEl {
+		return false
+	}
+	sers := serialisers(p)
+	for _, b := range fn.Blocks {
+		for _, in := range b.Instrs {
+			if c, ok := in.(*ssa.Call); ok && c.Call.StaticCallee() != nil && (isWriteCall(c) || sers[c.Call.StaticCallee()] != nil) {
+				return true
+			}
+		}
+	}
+	return false
+}
+
+// readsField: fn loads the named field of the named module struct (role lookup for small accessors).
+func readsField(fn *ssa.Function, typ, field string) bool {
+	for _, b := range fn.Blocks {
+		for _, in := range b.Instrs {
+			if fa, ok := in.(*ssa.FieldAddr); ok {
+				if n := namedOf(fa.X.Type()); n != nil && n.Obj().Name() == typ && fieldName(fa.X.Type(), fa.Field) == field {
+					return true
+				}
+			}
+		}
+	}
+	return false
 }
 
 // canonFirstSet renders "A if A is not empty, else B" written as a two-way phi in the form of the module's firstSet(A,B)
